@@ -17,6 +17,7 @@
 -/
 import Hv.Storage.NameLemmas
 import Hv.Storage.CompactLemmas
+import Hv.Storage.Listing
 import Hv.Basic.Verdict
 
 namespace Hv.C29
@@ -182,6 +183,34 @@ def HoldsPartial (cfg : Cfg) : Prop :=
 theorem holds_partial (cfg : Cfg) : HoldsPartial cfg :=
   fun codec crc bs name now ops hn =>
     ⟨name_roundtrip_v3 cfg codec crc bs name now hn ops, fun hne => scan_v3 cfg codec crc bs name now hn hne ops⟩
+
+/-- **listing_exact**: a directory whose files were each written by the engine under some name
+    (non-empty, < 65536 bytes; any history, any number of files, duplicates allowed): the explorer's
+    index contains exactly the names that have the three-part form — each once, nothing else. -/
+theorem listing_exact (cfg : Cfg) (codec : Codec) (crc : Checksum) (bs : Nat) (dir : List (Bytes × Bytes))
+    (hw : ∀ p ∈ dir, p.2 ≠ [] ∧ p.2.length < 2 ^ 16 ∧
+      ∃ now ops, p.1 = (runOps cfg codec crc bs (createFile p.2 now) ops).file) :
+    (∀ n, n ∈ listing cfg codec.toDecoder crc (dir.map (·.1)) ↔ (n ∈ dir.map (·.2) ∧ splits3 n = true)) ∧
+    (listing cfg codec.toDecoder crc (dir.map (·.1))).Nodup := by
+  obtain ⟨hmem, hnd⟩ := listing_spec cfg codec.toDecoder crc (dir.map (·.1))
+  refine ⟨fun n => ?_, hnd⟩
+  rw [hmem n]
+  constructor
+  · rintro ⟨f, hf, hs⟩
+    obtain ⟨p, hp, rfl⟩ := List.mem_map.mp hf
+    obtain ⟨hne, hlen, now, ops, hfile⟩ := hw p hp
+    rw [hfile, scan_v3 cfg codec crc bs p.2 now hlen hne ops] at hs
+    by_cases h3 : splits3 p.2 = true
+    · simp only [h3, if_true, Option.some.injEq] at hs
+      subst hs
+      exact ⟨List.mem_map.mpr ⟨p, hp, rfl⟩, h3⟩
+    · simp [h3] at hs
+  · rintro ⟨hn, h3⟩
+    obtain ⟨p, hp, rfl⟩ := List.mem_map.mp hn
+    obtain ⟨hne, hlen, now, ops, hfile⟩ := hw p hp
+    refine ⟨p.1, List.mem_map.mpr ⟨p, hp, rfl⟩, ?_⟩
+    rw [hfile, scan_v3 cfg codec crc bs p.2 now hlen hne ops]
+    simp [h3]
 
 /-! non-vacuity -/
 example : Good goodCfg := ⟨rfl, rfl⟩
